@@ -36,7 +36,30 @@ OperandTok(o, opcode) ==
   ELSE IF Cat(o.k) = "BitEnum" THEN MaskTok(o.k, o.w[1], 1, "")
   ELSE AnyTok
 
-\* expected tokens of the line of instruction i
+\* "extended-instruction numbers by name when the imported set is GLSL.std.450 or OpenCL.std"
+GlslName == <<71, 76, 83, 76, 46, 115, 116, 100, 46, 52, 53, 48>>          \* "GLSL.std.450"
+OpenCLName == <<79, 112, 101, 110, 67, 76, 46, 115, 116, 100>>             \* "OpenCL.std"
+\* the table an id was imported as ("glsl", "opencl" or "none"); the LAST import of an id wins, like a map insert
+RECURSIVE SetOf(_, _, _, _)
+SetOf(imports, id, j, acc) ==
+  IF j > Len(imports) THEN acc
+  ELSE LET im == imports[j]
+           hit == im.op = 11 /\ im.rid = <<id>> /\ Len(im.ops) >= 1 /\ im.ops[1].k = "LiteralString" IN
+       SetOf(imports, id, j + 1,
+             IF hit /\ im.ops[1].s = GlslName THEN "glsl" ELSE IF hit /\ im.ops[1].s = OpenCLName THEN "opencl" ELSE acc)
+ExtInstTok(i, imports) ==
+  LET set == SetOf(imports, i.ops[1].w[1], 1, "none")  n == i.ops[2].w[1] IN
+  IF set = "none" \/ n[1] # 0 \/ ToString(n[2]) \notin DOMAIN G[set] THEN Dec(n) ELSE G[set][ToString(n[2])].name
+
+\* expected tokens of the line of instruction i (imports: the module's OpExtInstImport instructions)
+LineToksIn(i, imports) ==
+  (IF i.rid # <<>> THEN <<IdTok(i.rid[1]), "=">> ELSE <<>>)
+  \o <<"Op" \o Inst(i.op).name>>
+  \o (IF i.rt # <<>> THEN <<IdTok(i.rt[1])>> ELSE <<>>)
+  \o [j \in 1..Len(i.ops) |->
+        IF i.op = 12 /\ j = 2 /\ Len(i.ops) >= 2 /\ i.ops[1].k = "IdRef" /\ i.ops[2].k = "LiteralExtInstInteger"
+        THEN ExtInstTok(i, imports) ELSE OperandTok(i.ops[j], i.op)]
+
 LineToks(i) ==
   (IF i.rid # <<>> THEN <<IdTok(i.rid[1]), "=">> ELSE <<>>)
   \o <<"Op" \o Inst(i.op).name>>
